@@ -11,7 +11,7 @@ pub fn server_config(protocol: &str, password: &str, cipher: &str, users: Value)
     serde_json::from_value(json!({"host": "127.0.0.1", "port": 1, "password": password, "protocol": protocol, "cipher": cipher, "user": users})).expect("config")
 }
 
-fn valid_header(cmd: u8) -> Vec<u8> {
+pub fn valid_header(cmd: u8) -> Vec<u8> {
     // hex(SHA224("pw")) CRLF cmd atyp=1 1.2.3.4:80 CRLF
     let mut v = b"bd1b4d5a3ff7a0b7a5d2ac4f9e3a1dbb8a14a6a5e8ac7ea3f2b1d0c9".to_vec();
     let cfg = server_config("trojan", "pw", "aes-128-gcm", json!([]));
